@@ -11,7 +11,7 @@
 //! A case is identified by (maker, depth); replay files carry that recipe, not the value (a JSON value nested
 //! thousands of levels cannot be read back by serde_json).
 
-use crate::fmts;
+use crate::fmts::{self, F};
 use crate::model::*;
 use crate::props::{c01, c02, c03, c07, c11, c12, c14, c16};
 use crate::report::{quiet_catch, Run, Tier};
@@ -205,11 +205,10 @@ pub fn case(id: &str, maker: &str, depth: usize) -> Result<(), String> {
                 let text = emit::join(&emit::term_toks(&f, &ra), if depth % 2 == 0 { "" } else { " " });
                 let one = match id {
                     "C03" => c03::case(&f, &text, Some(&V::term(ra.clone()).canon())),
-                    "C12" => match c12::case_parse(&f, &text) {
-                        Ok(true) => c12::case_text_fold(&f, &text).and_then(|ok| if ok { Ok(()) } else { Err("the lexical parser or the fold rejects the reference text of a well-formed tower".to_string()) }),
-                        Ok(false) => Err("the enum parser rejects the reference text of a well-formed tower".to_string()),
-                        Err(e) => Err(e),
-                    },
+                    // C12 constrains the values that ARE returned (a parser that rejects a deep text says nothing
+                    // against it - that is C01 / C02 / C03's business): whatever either pipeline accepts must be
+                    // well-formed, formattable and renderable
+                    "C12" => c12::case_parse(&f, &text).and_then(|_| c12::case_text_fold(&f, &text)).map(|_| ()),
                     _ => {
                         if f.name != "ascii" {
                             continue;
@@ -234,16 +233,10 @@ pub fn case(id: &str, maker: &str, depth: usize) -> Result<(), String> {
             r
         }
         "C02" => {
+            // the lexical value is built directly (not obtained from the parser under test)
             let mut r = Ok(());
             for f in fmts::all() {
-                let text = emit::join(&emit::term_toks(&f, &ra), "");
-                let x = match ops::parse_lex(&f, &text) {
-                    Ok(x) => x,
-                    Err(e) => {
-                        r = Err(short(format!("[{}] the lexical parser rejects the reference text of a well-formed tower: {e}", f.name)));
-                        break;
-                    }
-                };
+                let x = narsese::lexical::Narsese::Term(lterm_of(&f, &ra));
                 if let Err(e) = c02::case(&f, &x) {
                     r = Err(short(format!("[{}] {e}", f.name)));
                     break;
@@ -255,6 +248,36 @@ pub fn case(id: &str, maker: &str, depth: usize) -> Result<(), String> {
     };
     // the recipes (plain trees of the harness) are dropped here, on the big stack
     res
+}
+
+/// the lexical counterpart of a recipe, written with the format's own vocabulary (as the reference formatter `emit`
+/// writes it: images with their placeholder among the components)
+pub fn lterm_of(f: &F, r: &R) -> narsese::lexical::Term {
+    use narsese::lexical::Term as LT;
+    let c = &f.e.compound;
+    match r.tag.shape() {
+        Shape::Atom => {
+            let p = emit::atom_prefix(f, r.tag).to_string();
+            match r.tag {
+                Tag::Placeholder => LT::Atom { prefix: p, name: String::new() },
+                Tag::Interval => LT::Atom { prefix: p, name: r.idx.to_string() },
+                _ => LT::Atom { prefix: p, name: r.name.clone() },
+            }
+        }
+        Shape::Set if matches!(r.tag, Tag::SetExt | Tag::SetInt) => {
+            let (lb, rb) = if r.tag == Tag::SetExt { c.brackets_set_extension } else { c.brackets_set_intension };
+            LT::Set { left_bracket: lb.to_string(), terms: r.kids.iter().map(|k| lterm_of(f, k)).collect(), right_bracket: rb.to_string() }
+        }
+        _ if !r.tag.is_statement() => {
+            let mut terms: Vec<LT> = r.kids.iter().map(|k| lterm_of(f, k)).collect();
+            if r.tag.shape() == Shape::Image {
+                let at = r.idx.min(terms.len());
+                terms.insert(at, LT::Atom { prefix: f.e.atom.prefix_placeholder.to_string(), name: String::new() });
+            }
+            LT::Compound { connecter: emit::connecter(f, r.tag).to_string(), terms }
+        }
+        _ => LT::Statement { copula: emit::copula(f, r.tag).to_string(), subject: Box::new(lterm_of(f, &r.kids[0])), predicate: Box::new(lterm_of(f, &r.kids[1])) },
+    }
 }
 
 pub fn applies(id: &str) -> bool {
